@@ -168,6 +168,8 @@ func checkC02(r *evid.Run) {
 		checkRejectOrRender(r, d, concs, mdRoutes)
 	})
 	_ = classes
+	// the malformed document under every option sequence and entry point (Options.tla): rejected as under the plain options
+	checkOptions(r, "rule", []int{2}, func(s *optState) bool { return s.Fam == "md" })
 	r.Set("exhaustive", true)
 	r.Set("rule", "every sequence of at most MaxLines lines over the 16-line pool (well-formed items in two units and three bullets, a heading, blank lines, and one representative per malformation class), each run through text (both generators), JSON, YAML and walk; non-trivial = at least 2 lines and a root")
 	injectMalformations = injectC02
